@@ -8,12 +8,19 @@ impl<'a> OsLike for &'a OsString { open spec fn os_view(&self) -> Seq<u8> { (**s
 impl<'a> OsLike for &'a str { open spec fn os_view(&self) -> Seq<u8> { utf8(self@) } }
 impl<'a> OsLike for &'a String { open spec fn os_view(&self) -> Seq<u8> { utf8(self@) } }
 impl OsLike for String { open spec fn os_view(&self) -> Seq<u8> { utf8(self@) } }
+// a str is determined by its characters (Verus compares string-literal patterns on the str value)
+pub broadcast axiom fn axiom_str_ext(a: &str, b: &str)
+    requires #[trigger] a@ == #[trigger] b@ ensures a == b;
 // UTF-8 encoding of a string: uninterpreted, injective, homomorphic over concatenation
 pub uninterp spec fn utf8(s: Seq<char>) -> Seq<u8>;
 pub broadcast axiom fn axiom_utf8_injective(a: Seq<char>, b: Seq<char>)
     requires #[trigger] utf8(a) == #[trigger] utf8(b) ensures a == b;
 pub broadcast axiom fn axiom_utf8_concat(a: Seq<char>, b: Seq<char>)
     ensures #[trigger] utf8(a + b) == utf8(a) + utf8(b);
+pub open spec fn ascii(s: Seq<char>) -> bool { forall|i: int| 0 <= i < s.len() ==> (#[trigger] s[i] as u32) < 128 }
+pub broadcast axiom fn axiom_utf8_ascii(s: Seq<char>)
+    requires ascii(s)
+    ensures #[trigger] utf8(s) == s.map_values(|c: char| c as u8);
 pub broadcast axiom fn axiom_utf8_len(a: Seq<char>)
     ensures (#[trigger] utf8(a)).len() >= a.len(), a.len() == 0 ==> utf8(a).len() == 0;
 impl OsString {
@@ -44,6 +51,21 @@ impl From<&OsString> for OsString {
     #[verifier::external_body]
     fn from(o: &OsString) -> (r: OsString) { unimplemented!() }
 }
+pub type OsStr = OsString;
+impl OsString {
+    // Some(s) iff the bytes are valid UTF-8, and then s encodes to exactly these bytes
+    #[verifier::external_body]
+    pub fn to_str(&self) -> (r: Option<&str>)
+        ensures match r { Some(s) => utf8(s@) == self@, None => forall|s: Seq<char>| utf8(s) != self@ }
+    { unimplemented!() }
+    #[verifier::external_body]
+    pub fn to_os_string(&self) -> (r: OsString) ensures r@ == self@ { unimplemented!() }
+}
+// std: `impl<T> From<T> for T` is the identity (vstd gives the reflexive conversion no specification)
+pub broadcast axiom fn axiom_into_reflexive_osstring(o: OsString)
+    ensures <OsString as IntoSpec<OsString>>::obeys_into_spec(), #[trigger] IntoSpec::<OsString>::into_spec(o) == o;
+pub axiom fn axiom_obeys_into_reflexive_osstring()
+    ensures <OsString as IntoSpec<OsString>>::obeys_into_spec();
 pub uninterp spec fn os_of_str(s: Seq<char>) -> OsString;
 pub broadcast axiom fn axiom_os_of_str(s: Seq<char>) ensures (#[trigger] os_of_str(s))@ == utf8(s);
 impl<'a> FromSpecImpl<&'a str> for OsString {
